@@ -211,9 +211,69 @@ def enum_premerge(seed):
             "cases": cases, "failures": fails}
 
 
+def enum_engine(seed):
+    """the triggers as a merge gets them: a MergeEngine.install with its default plugins, plus the permission triggers of a configured build
+    account (another uid / gid than the default, world-writable bits to be fixed) registered on top, as a domain's triggers are; after the
+    pre_merge hook no entry of the set to be merged is owned by that account or is world-writable"""
+    import os
+    import shutil
+    import tempfile
+    from pkgcore.fs import fs
+    from pkgcore.fs.contents import contentsSet
+    from pkgcore.merge import engine as E
+    import pkgcore.merge.triggers as T
+    from snakeoil.data_source import data_source
+    scratch = tempfile.mkdtemp(prefix="c23.", dir=os.environ.get("PYVC_SCRATCH", "/var/tmp"))
+    cases, fails = 0, []
+
+    class _Quiet:
+        def __getattr__(self, n):
+            return lambda *a, **k: None
+    try:
+        for plugins in (True, False):
+            for extra_first in (False, True):
+                cases += 1
+                root, tmp = os.path.join(scratch, f"r{cases}"), os.path.join(scratch, f"t{cases}")
+                os.makedirs(root)
+                os.makedirs(tmp)
+                ents = [fs.fsDir("/usr", mode=0o755, uid=0, gid=0, mtime=1, strict=False), fs.fsDir("/usr/bin", mode=0o755, uid=4242, gid=4343, mtime=1, strict=False),
+                        fs.fsFile("/usr/bin/a", mode=0o755, uid=4242, gid=0, mtime=1, data=data_source(b"x"), strict=False),
+                        fs.fsFile("/usr/bin/b", mode=0o666, uid=0, gid=4343, mtime=1, data=data_source(b"x"), strict=False),
+                        fs.fsFile("/usr/bin/c", mode=0o4757, uid=4242, gid=4343, mtime=1, data=data_source(b"x"), strict=False)]
+                pkg = types.SimpleNamespace(contents=contentsSet(ents), cpvstr="cat/pkg-1")
+                model = {"default_plugins": plugins, "configured_triggers_registered_first": extra_first}
+                try:
+                    eng = E.MergeEngine.install(tmp, pkg, offset=root, observer=_Quiet(), disable_plugins=not plugins)
+                    own = [T.fix_uid_perms(uid=4242, replacement=0), T.fix_gid_perms(gid=4343, replacement=0), T.detect_world_writable(fix_perms=True), T.fix_set_bits()]
+                    for trg in own:
+                        trg.register(eng)
+                    eng.execute_hook("pre_merge")
+                    after = list(eng.csets["new_cset"])
+                except Exception as e:
+                    fails.append({"model": model, "detail": f"pre_merge of an install engine ({model}) raised {type(e).__name__}: {e}"})
+                    continue
+                bad = []
+                for e in after:
+                    if e.uid == 4242 or e.gid == 4343:
+                        bad.append(f"{e.location} still belongs to the build account ({e.uid}/{e.gid})")
+                    if not e.is_sym and not e.is_dir and e.mode & 0o002:
+                        bad.append(f"{e.location} is still world-writable ({e.mode:o})")
+                    if not e.is_sym and (e.mode & 0o6000) and (e.mode & 0o002):
+                        bad.append(f"{e.location} is set-id and world-writable ({e.mode:o})")
+                if len(after) != len(ents):
+                    bad.append(f"the set holds {len(after)} entries, the package has {len(ents)}")
+                if bad and len(fails) < 4:
+                    fails.append({"model": model, "detail": f"install engine ({'default plugins, ' if plugins else 'no plugins, '}the triggers of a configured build account 4242:4343 registered on top), after pre_merge: " + "; ".join(bad[:4])})
+    finally:
+        shutil.rmtree(scratch, ignore_errors=True)
+    return {"name": "C23.engine.bounded_enumeration", "bound": "an install engine with and without its default plugins, the permission triggers of a configured build account registered on top; 5 entries; the set to be merged inspected after pre_merge",
+            "cases": cases, "failures": fails}
+
+
 def tasks():
     fns = [(FILE, f"{n}.trigger") for n in TRIGGERS + ("detect_world_writable",)]
     return [Task("C23.pre_merge", t_premerge, fns, enumerate=enum_premerge),
+            Task("C23.engine", None, [("src/pkgcore/merge/engine.py", "MergeEngine.add_trigger"), ("src/pkgcore/merge/engine.py", "MergeEngine.execute_hook")], enumerate=enum_engine),
             Task("C23.change_attributes", t_change_attributes, [(FS, "fsBase.change_attributes"), (FS, "fsBase.__init__"), (FS, "fsDev.__init__"), (FS, "fsFile.__init__"), (FS, "fsFile.change_attributes"), (FS, "fsLink.change_attributes"),
                                                                 (FS, "fsLink.__init__")])]
 
